@@ -85,16 +85,23 @@ let () =
                     else if not (c18_spec_rel_accepts a b r) then "base+result-denotes-other-location"
                     else if not (c18_nf r) then "result-not-normal-form"
                     else "ok")
-        | "prefix" ->
+        | "prefix" | "prefix_vec" | "prefix_list" | "prefix_sv" | "prefix_deque" ->
+            (* any character container, prefix handed over as const char* (cut at the first NUL) *)
             let s = get t.(1) and x = get t.(2) in
-            b01 (c18_hasPrefix s x), (fun i -> expect_bool i (c18_spec_prefix x s) "prefix")
-        | "suffix" ->
+            b01 (c18_hasPrefix_c s x), (fun i -> expect_bool i (c18_spec_prefix (c18_cstr x) s) "prefix")
+        | "suffix" | "suffix_vec" | "suffix_list" | "suffix_sv" | "suffix_deque" ->
             let s = get t.(1) and x = get t.(2) in
-            b01 (c18_hasSuffix s x), (fun i -> expect_bool i (c18_spec_suffix x s) "suffix")
+            b01 (c18_hasSuffix_c s x), (fun i -> expect_bool i (c18_spec_suffix (c18_cstr x) s) "suffix")
         | "format" ->
-            (* format <fmt> <kind> <arg> <F> : F is the full expansion (what snprintf would produce) *)
+            (* format <fmt> <kind> <arg> <F> : F is the full expansion (what snprintf would produce),
+               or "!" when snprintf reports a conversion error (negative return value) *)
+            if t.(4) = "!" then
+              (match c18_formatString_err None with None -> "EXC Exception" | Some r -> esc r),
+              (fun i -> if i = "EXC Exception" then "ok" else "format-error-not-reported")
+            else
             let f = get t.(4) in
-            esc (c18_formatString f), (fun i -> expect_str i f "format")
+            (match c18_formatString_err (Some f) with None -> "EXC Exception" | Some r -> esc r),
+            (fun i -> expect_str i (c18_cstr f) "format")
         | _ -> "UNKNOWN-OP", (fun _ -> "unknown-op")
       with e -> "MODEL-ERROR " ^ Printexc.to_string e, (fun _ -> "model-error") in
     print_string model; print_string " | ";
